@@ -8,6 +8,8 @@ use crate::html;
 pub struct BodyAppend {
     element_tree: Vec<String>,
     position: usize,
+    // Whether the last element of the tree (the target) is currently open
+    in_target: bool,
     css_selector: Option<String>,
     content: String,
     inner_content: String,
@@ -28,6 +30,7 @@ impl BodyAppend {
             element_tree,
             css_selector,
             position: 0,
+            in_target: false,
             content,
             inner_content,
             id,
@@ -48,6 +51,8 @@ impl BodyAppend {
             return (next_enter, next_leave, false, data);
         }
 
+        self.in_target = true;
+
         let should_buffer =
             self.position + 1 >= self.element_tree.len() && self.css_selector.is_some() && !self.css_selector.as_ref().unwrap().is_empty();
 
@@ -55,12 +60,19 @@ impl BodyAppend {
     }
 
     pub fn leave(&mut self, data: String, unit_trace: Option<&mut UnitTrace>) -> Result<(Option<String>, Option<String>, String)> {
-        let next_enter = Some(self.element_tree[self.position].clone());
-        let is_processing = self.position + 1 >= self.element_tree.len();
-        let next_leave = if self.position as i32 > 0 {
-            self.position -= 1;
+        let is_processing = self.in_target;
 
-            Some(self.element_tree[self.position].clone())
+        // When the target is left the position does not move: it was not advanced when the target was
+        // entered, and its next sibling occurrence has to be processed as well
+        if is_processing {
+            self.in_target = false;
+        } else if self.position > 0 {
+            self.position -= 1;
+        }
+
+        let next_enter = Some(self.element_tree[self.position].clone());
+        let next_leave = if self.position > 0 {
+            Some(self.element_tree[self.position - 1].clone())
         } else {
             None
         };
